@@ -2,6 +2,7 @@ package registry
 
 import (
 	"go/types"
+	"sort"
 	"strconv"
 )
 
@@ -157,8 +158,15 @@ func (m MethodScope) populateImports(t types.Type, imports map[string]*Package) 
 func (m MethodScope) resolveImportVarConflicts(imports map[string]*Package) {
 	// Ensure that all the newly added imports do not conflict with any of the
 	// existing vars.
-	for _, imprt := range imports {
-		if v, ok := m.searchVar(imprt.Qualifier()); ok {
+	// Renaming a var can make it collide with another import, so visit the
+	// imports in a fixed order to keep the output deterministic.
+	paths := make([]string, 0, len(imports))
+	for path := range imports {
+		paths = append(paths, path)
+	}
+	sort.Strings(paths)
+	for _, path := range paths {
+		if v, ok := m.searchVar(imports[path].Qualifier()); ok {
 			v.Name += "MoqParam"
 		}
 	}
